@@ -53,10 +53,10 @@ import Lungo.Proofs.ApplyLaws
 import Lungo.Proofs.NoPanic
 import Lungo.Props.C11
 import Lungo.Proofs.SortLaws
--- PENDING import Lungo.Proofs.ProjectLaws
--- PENDING import Lungo.Proofs.ProjectPaths
+import Lungo.Proofs.ProjectLaws
+import Lungo.Proofs.ProjectPaths
 import Lungo.Props.C13
--- PENDING import Lungo.Props.C14
+import Lungo.Props.C14
 import Lungo.Model.Conc
 import Lungo.Model.StreamTS
 import Lungo.Expected.Skeleton
@@ -84,3 +84,4 @@ import Lungo.Proofs.OplogLaws
 import Lungo.Model.ApiFlow
 import Lungo.Expected.ApiFlow
 import Lungo.Props.C17
+import Lungo.Proofs.FindLaws
